@@ -9,8 +9,8 @@ CONSTANTS
   Pick <- PickOne
   DerivedUpd <- DerivedBoth
   KnownGaps = {}
-  LS = {"L1", "L2", "L3", "L4", "L5"}
-  MSV = {"M1", "M2", "M3", "M4", "M5", "M6"}
+  LS = {"L1", "L2", "L3", "L4", "L5", "L6"}
+  MSV = {"M1", "M2", "M3", "M4", "M5", "M6", "M7", "M8"}
   MSI = {"MBadEmpty", "MBadRe", "MNone"}
   Cmts = {"c1", "c2", "big"}
   StartOffs = {0, 2, 3, 4}
